@@ -123,6 +123,7 @@ class PortalRun:
         self.host_state = "init"          # body | exiting | left
         self.host_exc = None
         self.stopped_ever = False
+        self.cancel_remaining_requested = False   # some stop(cancel_remaining=True) ran while the group was entered
         self.portal = None
         self.body_fut = None
         self.harness_errors: list[str] = []
@@ -451,6 +452,7 @@ class PortalRun:
     # ---- performing one op ------------------------------------------------------------------------------------
     def do(self, code: int, k: int = 0, a: int = 0, b: int = 0, c: int = 0, d: int = 0):
         before_int = {j for j, r in self.recs.items() if self.interruptible(r)}
+        self._stopped_before_this_op = self.stopped_ever
         try:
             res = self._perform(code, k, a, b, c, d)
         except HarnessError as e:
@@ -686,8 +688,27 @@ class PortalRun:
                     and rec.cancel_handle is None and self.blocked(rec) and not self.interruptible(rec):
                 self.mon.append(f"call {k} blocks although its caller cancelled its future and no cancellation is "
                                 f"on its way to the task")
-        if code == STOP and a:
+        if code == STOP and a and res == 7:
             self.flags.add("stop_cancel_remaining")
+            if self.host_state != "left":
+                self.cancel_remaining_requested = True
+                running_calls = [r.k for r in self.recs.values() if self.blocked(r)]
+                if self.portal._event_loop_thread_id is None and self.portal._stop_event.is_set() \
+                        and getattr(self, "_stopped_before_this_op", False):
+                    self.flags.add("two_phase_stop")
+                    if running_calls:
+                        self.flags.add("two_phase_stop_with_running_calls")
+                if not self.tg.cancel_scope.cancel_called:
+                    self.mon.append("stop(cancel_remaining=True) was executed but the portal's task group scope is not "
+                                    f"cancelled (calls still running: {running_calls})")
+                for r in self.recs.values():
+                    if self.blocked(r) and not self.interruptible(r):
+                        self.mon.append(f"after stop(cancel_remaining=True) no cancellation is on its way to running call "
+                                        f"{r.k}: the exit would wait for it to finish by itself")
+        if code == STEP and res == 4 and c == F_BLOCK and self.cancel_remaining_requested and rec is not None \
+                and self.host_state != "left" and self.blocked(rec) and not self.interruptible(rec):
+            self.mon.append(f"call {k} blocks after stop(cancel_remaining=True) was executed and no cancellation is on its "
+                            f"way to it")
         if code == HRESUME and res == 8:
             self.flags.add("host_rewaits")
         if code == LAND and res == 2 and self.host_code() == 2:
@@ -833,16 +854,27 @@ def run_script(ncalls: int, flat_ops: list[int], drain: bool = True) -> PortalRu
     return r.slim()
 
 
-def random_case(rng: random.Random, nsteps: int) -> PortalRun:
-    ncalls = rng.choice([1, 2, 2, 3, 3, 4])
+def random_case(rng: random.Random, nsteps: int, prefix: list[int] | None = None, ncalls: int | None = None) -> PortalRun:
+    """Random walk over the ops the implementation enables; `prefix` (flat ops) is executed first (used to search
+    for a monitor-failing input around a model/implementation divergence)."""
+    ncalls = ncalls or rng.choice([1, 2, 2, 3, 3, 4])
     w = {ISSUE: 4, LAND: 4, STEP: 5, REAP: 3, FCANCEL: rng.choice([0.5, 1.5, 3]), CLAND: 3,
          STOP: rng.choice([0.1, 0.4, 1.0]), HEXIT: rng.choice([0.2, 0.6, 1.5]), HRESUME: rng.choice([1, 3])}
     r = PortalRun(ncalls)
     val = 10
     with r:
+        for i in range(0, len(prefix or []) - 5, 6):
+            r.do(*prefix[i:i + 6])
         for _ in range(nsteps):
             en = r.enabled()
-            e = rng.choices(en, [w[x[0]] for x in en])[0]
+            ws = []
+            for x in en:
+                wx = w[x[0]]
+                if x[0] == STOP and x[1] == 1 and r.stopped_ever and not r.tg.cancel_scope.cancel_called \
+                        and any(r.blocked(q) for q in r.recs.values()):
+                    wx = max(wx * 6, 2.0)          # second phase of a two-phase shutdown with calls still running
+                ws.append(wx)
+            e = rng.choices(en, ws)[0]
             code = e[0]
             if code == ISSUE:
                 r.do(ISSUE, e[1], e[2])
